@@ -134,9 +134,9 @@ def run_shard(spec, ctx):
     # each stage runs only while nothing has failed: a failing tree is reported from the cheapest stage
     core.enum_shard(core.sliced(g.core_cases(), ctx.index, ctx.nshards), check_case, ctx, rec=rec)
     if not rec.violations:
-        core.hyp_shard(g.escape_case(), check_case, ctx, ctx.pick(3000, 35000), rec=rec, tag="esc")
+        core.hyp_shard(g.escape_case(), check_case, ctx, ctx.pick(3000, 65000), rec=rec, tag="esc")
     if not rec.violations:
-        core.hyp_shard(g.struct_program(), check_case, ctx, ctx.pick(800, 6000), rec=rec, tag="struct")
+        core.hyp_shard(g.struct_program(), check_case, ctx, ctx.pick(800, 10000), rec=rec, tag="struct")
     return rec
 
 
